@@ -10,14 +10,7 @@ from tskit.combinatorics import Combination, RankTree
 NMAX = 5
 
 
-def unrank_rank(n: int, s: int, l: int) -> bool:
-    """
-    Tree.unrank(n,(s,l)).rank()==(s,l) inside the dense range; rejected outside.
-    pre: 1 <= n <= 5
-    pre: 0 <= s <= 14
-    pre: 0 <= l <= 130
-    post: _
-    """
+def _bijection(n, s, l):
     try:
         t = RankTree.unrank(n, (s, l))
     except ValueError:
@@ -26,6 +19,44 @@ def unrank_rank(n: int, s: int, l: int) -> bool:
         return l >= comb.num_labellings(n, s)
     r = t.rank()
     return r[0] == s and r[1] == l and s < comb.num_shapes(n) and l < comb.num_labellings(n, s)
+
+
+def unrank_rank(n: int, s: int, l: int) -> bool:
+    """
+    Tree.unrank(n,(s,l)).rank()==(s,l) inside the dense range; rejected outside.
+    pre: 1 <= n <= 4
+    pre: 0 <= s <= 6
+    pre: 0 <= l <= 16
+    post: _
+    """
+    return _bijection(n, s, l)
+
+
+def unrank_rank_n5a(s: int, l: int) -> bool:
+    """
+    pre: 0 <= s <= 5
+    pre: 0 <= l <= 62
+    post: _
+    """
+    return _bijection(5, s, l)
+
+
+def unrank_rank_n5b(s: int, l: int) -> bool:
+    """
+    pre: 6 <= s <= 8
+    pre: 0 <= l <= 62
+    post: _
+    """
+    return _bijection(5, s, l)
+
+
+def unrank_rank_n5c(s: int, l: int) -> bool:
+    """
+    pre: 9 <= s <= 13
+    pre: 0 <= l <= 62
+    post: _
+    """
+    return _bijection(5, s, l)
 
 
 def unrank_rank_n6(s: int, l: int) -> bool:
@@ -117,51 +148,74 @@ class FakeTree:
         return len(self._children.get(u, []))
 
 
-def _to_fake(t, seed):
-    """RankTree -> FakeTree with child order and internal node numbering scrambled by `seed`."""
+def _to_fake(t, rot, rev, pre):
+    """RankTree -> FakeTree with child order rotated by `rot`, optionally reversed, and internal node ids
+    assigned in pre- or post-order."""
     n = t.num_leaves
     children = {}
-    counter = [n + (seed % 3)]
+    counter = [n + 2]
 
-    def walk(node, s):
+    def walk(node):
         if node.is_leaf():
             return node.label
         kids = list(node.children)
-        k = s % len(kids)
+        k = rot % len(kids)
         kids = kids[k:] + kids[:k]
-        if (s // 2) % 2:
+        if rev:
             kids.reverse()
-        # internal ids: pre- or post-order depending on the seed
         me = None
-        if s % 2:
+        if pre:
             me = counter[0]
             counter[0] += 1
-        ids = [walk(c, s // 3 + i + 1) for i, c in enumerate(kids)]
+        ids = [walk(c) for c in kids]
         if me is None:
             me = counter[0]
-            counter[0] += 2
+            counter[0] += 3
         children[me] = ids
         return me
 
-    root = walk(t, seed)
+    root = walk(t)
     return FakeTree(children, root)
 
 
-def rank_invariant(n: int, s: int, l: int, seed: int) -> bool:
-    """
-    rank() does not depend on child order or internal node numbering.
-    pre: 2 <= n <= 4
-    pre: 0 <= s <= 4
-    pre: 0 <= l <= 14
-    pre: 0 <= seed <= 17
-    post: _
-    """
+def _invariant(n, s, l, rot, rev, pre):
     if s >= comb.num_shapes(n) or l >= comb.num_labellings(n, s):
         return True
     t = RankTree.unrank(n, (s, l))
-    f = _to_fake(t, seed)
+    f = _to_fake(t, rot, rev, pre)
     r = RankTree.from_tsk_tree(f).rank()
     return r[0] == s and r[1] == l
+
+
+def rank_invariant_n3(s: int, l: int, rot: int, rev: bool, pre: bool) -> bool:
+    """
+    rank() does not depend on child order or internal node numbering.
+    pre: 0 <= s <= 1
+    pre: 0 <= l <= 2
+    pre: 0 <= rot <= 2
+    post: _
+    """
+    return _invariant(3, s, l, rot, rev, pre)
+
+
+def rank_invariant_n4(s: int, l: int, rot: int, pre: bool) -> bool:
+    """
+    pre: 0 <= s <= 4
+    pre: 0 <= l <= 11
+    pre: 0 <= rot <= 2
+    post: _
+    """
+    return _invariant(4, s, l, rot, False, pre)
+
+
+def rank_invariant_n4_reversed(s: int, l: int, rot: int, pre: bool) -> bool:
+    """
+    pre: 0 <= s <= 4
+    pre: 0 <= l <= 11
+    pre: 0 <= rot <= 2
+    post: _
+    """
+    return _invariant(4, s, l, rot, True, pre)
 
 
 def all_trees_in_rank_order(n: int) -> bool:
@@ -255,16 +309,8 @@ SHAPES = [
 ]
 
 
-def count_topologies_bruteforce(shape: int, a0: int, a1: int, a2: int, a3: int, a4: int) -> bool:
-    """
-    tree_count_topologies == multiset of ranks over one-sample-per-set choices.
-    a_i in {0,1,2,3}: sample i belongs to set a_i (3 = none).
-    pre: 0 <= shape <= 4
-    pre: 0 <= a0 <= 3 and 0 <= a1 <= 3 and 0 <= a2 <= 3 and 0 <= a3 <= 3 and 0 <= a4 <= 3
-    post: _
-    """
+def _count_check(shape, assign):
     children, root, nleaves = SHAPES[shape]
-    assign = [a0, a1, a2, a3, a4][:nleaves]
     sets = [[u for u in range(nleaves) if assign[u] == k] for k in range(3)]
     tree = CountTree(children, [root], 12, list(range(nleaves)))
     tc = comb.tree_count_topologies(tree, sets)
@@ -282,3 +328,58 @@ def count_topologies_bruteforce(shape: int, a0: int, a1: int, a2: int, a3: int, 
             if got != expect:
                 return False
     return True
+
+
+def count_topologies_shape0(a0: int, a1: int, a2: int, a3: int) -> bool:
+    """
+    tree_count_topologies == multiset of ranks over one-sample-per-set choices; balanced 4-leaf tree.
+    a_i: sample i belongs to set a_i (3 = in no set).
+    pre: 0 <= a0 <= 3 and 0 <= a1 <= 2 and 0 <= a2 <= 2 and 0 <= a3 <= 2
+    post: _
+    """
+    return _count_check(0, [a0, a1, a2, a3])
+
+
+def count_topologies_shape1(a0: int, a1: int, a2: int, a3: int) -> bool:
+    """
+    polytomy of three below the root
+    pre: 0 <= a0 <= 3 and 0 <= a1 <= 2 and 0 <= a2 <= 2 and 0 <= a3 <= 2
+    post: _
+    """
+    return _count_check(1, [a0, a1, a2, a3])
+
+
+def count_topologies_shape2(a0: int, a1: int, a2: int, a3: int, a4: int) -> bool:
+    """
+    5-leaf caterpillar
+    pre: 0 <= a0 <= 1 and 0 <= a1 <= 2 and 0 <= a2 <= 2 and 0 <= a3 <= 1 and 0 <= a4 <= 2
+    post: _
+    """
+    return _count_check(2, [a0, a1, a2, a3, a4])
+
+
+def count_topologies_shape2b(a0: int, a1: int, a2: int, a3: int, a4: int) -> bool:
+    """
+    5-leaf caterpillar, first sample in set 2 or in no set
+    pre: 2 <= a0 <= 3 and 0 <= a1 <= 2 and 0 <= a2 <= 2 and 0 <= a3 <= 1 and 0 <= a4 <= 2
+    post: _
+    """
+    return _count_check(2, [a0, a1, a2, a3, a4])
+
+
+def count_topologies_shape3(a0: int, a1: int, a2: int, a3: int) -> bool:
+    """
+    unary node above a cherry, inside a polytomy
+    pre: 0 <= a0 <= 3 and 0 <= a1 <= 2 and 0 <= a2 <= 2 and 0 <= a3 <= 2
+    post: _
+    """
+    return _count_check(3, [a0, a1, a2, a3])
+
+
+def count_topologies_shape4(a0: int, a1: int, a2: int, a3: int) -> bool:
+    """
+    star tree
+    pre: 0 <= a0 <= 3 and 0 <= a1 <= 2 and 0 <= a2 <= 2 and 0 <= a3 <= 2
+    post: _
+    """
+    return _count_check(4, [a0, a1, a2, a3])
